@@ -9,7 +9,8 @@
 // for Splunk QL / SQL / PromQL, fragments for Pipe QL, Log QL, the Elasticsearch query DSL and the OpenTSDB metric
 // expression — carried by the route that takes it.  The PARENT sends the bytes over TCP and then asserts
 //
-//	(1) an answer arrived within c17aAnswerDeadline (any status: 4xx / 5xx are fine) — else `alive/<route>/no-answer`;
+//	(1) an answer arrived within c17aAnswerDeadline (any status: 4xx / 5xx are fine) — else, when the request repeated alone
+//	    against a fresh server is not answered within c17aConfirmDeadline either, `alive/<route>/no-answer`;
 //	(2) the server process has not exited                                              — else `alive/<route>/process-died/<site>`;
 //	(3) a trivial search on the bootstrap index is answered with status 200 in time    — else `…/no-answer` / `…/process-died`.
 //
@@ -60,6 +61,7 @@ var c17aWorkers = 4
 
 const c17aAnswerDeadline = 15 * time.Second
 const c17aProbeDeadline = 10 * time.Second
+const c17aConfirmDeadline = 45 * time.Second // a request that was not answered, repeated alone against a fresh server
 
 func init() {
 	if os.Getenv("C17A_ONE") != "" { // one server, lines in order: a run that can be repeated exactly
@@ -785,8 +787,41 @@ func c17aExec(line string) Result {
 	// (1) the answer
 	if a.err != "" && dt >= c17aAnswerDeadline-time.Second {
 		s.dump()
-		fail("alive/"+route+"/no-answer", fmt.Sprintf("no answer within %v (%s); request: %s", c17aAnswerDeadline, a.err, witness))
 		tags = append(tags, "no-answer")
+		if !replace() {
+			res.Tags = tags
+			return res
+		}
+		// A missing answer on a busy machine or behind the requests of earlier lines is not yet a request that is never
+		// answered: the request is repeated ALONE against the fresh server with three times the deadline; only when that
+		// one is not answered either the line is a finding (a line with preparing requests is reported at once).
+		if len(preps) == 0 {
+			raw2 := s.subst(payload)
+			var b c17aAns
+			if f[0] == "ws" {
+				b = c17aWS(s.qport, route[strings.Index(route, "/"):], raw2, c17aConfirmDeadline)
+			} else if f[1] == "i" {
+				b = c17aHTTP(s.iport, raw2, c17aConfirmDeadline)
+			} else {
+				b = c17aHTTP(s.qport, raw2, c17aConfirmDeadline)
+			}
+			if s.hasExited() {
+				suffix, msg := s.died()
+				fail("alive/"+route+"/process-died"+suffix, msg+" (the request repeated alone after it had not been answered); request: "+witness)
+				tags = append(tags, "died")
+				replace()
+				res.Tags = tags
+				return res
+			}
+			if b.err == "" {
+				tags = append(tags, "no-answer-not-reproduced-alone")
+				replace() // whatever the repeated request started does not meet the next line
+				res.Tags = tags
+				return res
+			}
+			witness += fmt.Sprintf(" (repeated alone against a fresh server: no answer within %v either)", c17aConfirmDeadline)
+		}
+		fail("alive/"+route+"/no-answer", fmt.Sprintf("no answer within %v (%s); request: %s", c17aAnswerDeadline, a.err, witness))
 		replace()
 		res.Tags = tags
 		return res
